@@ -13,10 +13,12 @@ import (
 	"fmt"
 	"io"
 	"net"
+	"os"
 	"sort"
 	"strconv"
 	"strings"
 	"sync"
+	"sync/atomic"
 	"testing"
 	"time"
 )
@@ -98,6 +100,10 @@ type simCluster struct {
 	onEmptyProduce func(broker int32)
 	reqIDs         map[int]map[int][]int // produce request number -> partition -> ids it carries
 
+	// the Kafka client id the scenario's clients carry (unique per cluster and process): requests with another client id come from a
+	// client that does not belong to this scenario (another verification process whose client redials a port this listener was given
+	// afterwards, or a straggler of an abandoned scenario) - such connections are closed without being recorded
+	clientID       string
 	initPidFault   string
 	fetchPlans     map[string]*simFetchPlan
 	abortedReverse bool
@@ -113,9 +119,12 @@ type simBroker struct {
 	cons map[net.Conn]bool
 }
 
+var simClusterSeq int64
+
 func newSimCluster(t testing.TB, rec *vRec, nbrokers int, leaders []int32) *simCluster {
 	c := &simCluster{t: t, rec: rec, parts: map[int32]*simPart{}, pid: 7000, submitted: map[int]*simSubmitted{},
 		plans: map[int]*simPlan{}, holds: map[int]chan struct{}{}, reqSeen: map[int]chan struct{}{}, fetchPlans: map[string]*simFetchPlan{}}
+	c.clientID = fmt.Sprintf("verif-%d-%d", os.Getpid(), atomic.AddInt64(&simClusterSeq, 1))
 	for p, l := range leaders {
 		c.parts[int32(p)] = &simPart{leader: l}
 	}
@@ -318,6 +327,9 @@ func (b *simBroker) handleConn(conn net.Conn) {
 			// the client under test put bytes on the wire that are not a decodable request
 			b.c.rec.Ev("bad_request", kv{"what": err.Error()})
 			return
+		}
+		if b.c.clientID != "" && req.clientID != b.c.clientID {
+			return // not a client of this scenario
 		}
 		res, after := b.c.handle(b, req, int(n)+4)
 		if after == "drop" {
